@@ -6,6 +6,7 @@ import (
 	"time"
 
 	"tunnox-core/internal/core/storage"
+	"tunnox-core/internal/core/storage/hybrid"
 	"tunnox-core/internal/core/storage/memory"
 )
 
@@ -44,12 +45,23 @@ func Harness_C09_routing() {
 	now := int64(1) << 60
 	verif_ClockSet(now)
 	mem := memory.New(ctx)
-	var st storage.Storage = mem
-	if verif_Bool() {
-		st = &c09JSONStore{mem}
+	// backend: 0 = in-memory, 1 = Redis-like (JSON text values), 2 = tiered: every node has its
+	// own hybrid.Storage (node-local cache) over one shared Redis-like cache, as in production
+	sts := []storage.Storage{mem, mem}
+	switch verif_Choose(3) {
+	case 1:
+		js := &c09JSONStore{mem}
+		sts = []storage.Storage{js, js}
+	case 2:
+		shared := &c09JSONStore{mem}
+		sts = []storage.Storage{
+			hybrid.NewWithSharedCache(ctx, memory.New(ctx), shared, nil, hybrid.DefaultConfig()),
+			hybrid.NewWithSharedCache(ctx, memory.New(ctx), shared, nil, hybrid.DefaultConfig()),
+		}
+		verif_Cover("C09.tiered")
 	}
 	ttl := int64(verif_Byte()) + 1
-	nodes := []*RoutingTable{NewRoutingTable(st, time.Duration(ttl)), NewRoutingTable(st, time.Duration(ttl))}
+	nodes := []*RoutingTable{NewRoutingTable(sts[0], time.Duration(ttl)), NewRoutingTable(sts[1], time.Duration(ttl))}
 	ids := []string{"t0", "t1"}
 	recs := map[string]*c09Rec{"t0": {}, "t1": {}}
 	n := verif_Bound("ops")
